@@ -29,7 +29,14 @@ type C17Case struct {
 	Message    string `json:"message"` // direct routes only
 	URL        string `json:"url"`     // consumer URL (direct, callback) - logout and sso-error use a registered URL
 	Done       bool   `json:"done,omitempty"`
+	// ReqHeaders: header lines of the triggering request (handler routes): a user agent or an attacker's fetch() may send range
+	// and cache-validation headers with any request; the page must not be cut, re-framed or dropped because of them.
+	ReqHeaders [][2]string `json:"request_headers,omitempty"`
 }
+
+var c17ReqHeaders = [][2]string{{"Range", "bytes=0-99"}, {"Range", "bytes=100-"}, {"Range", "bytes=0-10,20-30,-5"}, {"Range", "bytes=-1"}, {"If-Range", "\"x\""}, {"If-None-Match", "*"}, {"If-Match", "*"}, {"If-Match", "\"nope\""},
+	{"If-Modified-Since", "Wed, 21 Oct 2099 07:28:00 GMT"}, {"If-Unmodified-Since", "Wed, 21 Oct 2015 07:28:00 GMT"}, {"Accept-Encoding", "gzip, deflate, br"}, {"Accept", "application/json"}, {"TE", "trailers"}, {"Expect", "100-continue"},
+	{"X-HTTP-Method-Override", "HEAD"}, {"Accept-Charset", "utf-16"}}
 
 var c17Payloads = []string{
 	"\"", "'", "<", ">", "&", "\"><script>alert(1)</script>", "' onmouseover='alert(1)", "\"/><input name=\"x\" value=\"", "</form><form action=\"https://evil.example\">", "&quot;", "&#34;", "&amp;quot;", "&lt;",
@@ -82,6 +89,9 @@ func genC17Case(t *rapid.T) C17Case {
 		c.URL = "https://sp.example/" + genHostile(t, "urltail", 4)
 	}
 	c.Done = rapid.Bool().Draw(t, "done")
+	for i := rapid.IntRange(-3, 2).Draw(t, "nreqheaders"); i > 0; i-- {
+		c.ReqHeaders = append(c.ReqHeaders, rapid.SampledFrom(c17ReqHeaders).Draw(t, "reqheader"))
+	}
 	return c
 }
 
@@ -346,6 +356,7 @@ func c17Run(c C17Case) ([]*ev.Violation, string) {
 		}
 	}
 	s2, hr := build(c.RelayState, url)
+	hr.Headers = append(hr.Headers, c.ReqHeaders...)
 	w := mustBuild(s2)
 	rep := obs.Do(w.Handler, hr)
 	if rep.Panic != "" {
@@ -353,6 +364,9 @@ func c17Run(c C17Case) ([]*ev.Violation, string) {
 	}
 	if rep.Status >= 400 {
 		return nil, "http-error"
+	}
+	if rep.Status == 206 {
+		return []*ev.Violation{ev.V("C17/partial-page", "request headers %v: the auto-submit page is served as a 206 partial content (%d bytes, Content-Range %q)", c.ReqHeaders, len(rep.Body), rep.Header.Get("Content-Range"))}, "page"
 	}
 	if !bytes.Contains(rep.Body, []byte("<form")) && !bytes.Contains(bytes.ToLower(rep.Body), []byte("<html")) {
 		return nil, "no-page"
